@@ -104,6 +104,8 @@ def check(prop, tier, seed):
     for j in jobs:
         j.setdefault("prop", prop)
         j.setdefault("mod", mod.__name__)
+    import shutil
+    shutil.rmtree(os.path.join(env.WORK, "replays", prop), ignore_errors=True)
     results, problems = run_jobs(jobs, tier)
     m = merge(results)
     fnd = findings.open_findings(prop)
